@@ -2,6 +2,8 @@ import WhVerif.Lemmas.C08Example
 import WhVerif.Lemmas.C08Pos
 import WhVerif.Lemmas.C08ScaleProd
 import WhVerif.Lemmas.C08Conv
+import WhVerif.Lemmas.C08ImplCol
+import WhVerif.Lemmas.C08Glue
 /-!
 # C08 — genotyping reports the exact posterior of its HMM; GT, GL and GQ agree.
 
@@ -303,5 +305,172 @@ example : gqMass (likelihood exInst exParams exScal 1 0) 1 = 1 - posterior exIns
 /-- a trio satisfies the guard as well (mother 0, father 1, child 2) -/
 example : ({ nCols := 2, nInd := 3, triples := [(1, 0, 2)],
              reads := [⟨0, [(0, 0, 10), (1, 1, 20)]⟩, ⟨2, [(0, 1, 10), (1, 1, 30)]⟩] } : Inst).WF = true := by decide
+
+
+/-! ## Round 10: the implementation-structured model (`Model/C08Impl.lean`) refines the clean one -/
+
+section Impl
+open WhVerif.C08.Impl WhVerif.C01
+
+/-- **The incremental cost computer is the direct product.**  Walk one `GenotypeColumnCostComputer` along the Gray
+codes exactly as the column loops do (`set_partitioning` for the first code, then `update_partitioning(bit)`:
+multiply the read's two factors into its new partition, divide them out of the old one; BLANK: nothing).  After
+any number of steps `get_cost(a)` – the product over the partitions of `cost_partition[p][(a>>p)&1]` – is the
+emission product of the clean model for the *current* Gray code, for every allele assignment.  Needs what the
+divisions need: no emission factor is zero; and the partition numbers are below `pedigree_partitions.count()`. -/
+theorem impl_cost_eq_model [Field K] (em : Nat → K) (parts : Nat → Nat × Nat) (nP : Nat) (col : List Ent)
+    (hne : ∀ e ∈ col, ∀ ind alt q, e = some (ind, alt, q) → em q ≠ 0 ∧ 1 - em q ≠ 0)
+    (hP : ∀ e ∈ col, ∀ ind alt q, e = some (ind, alt, q) → (parts ind).1 < nP ∧ (parts ind).2 < nP)
+    (k idx : Nat) (bit : Int) (hk : (grayList col.length)[k]? = some (idx, bit)) (a : Nat) :
+    getCost nP (ccWalk em parts nP col k) a = emitCol em parts a col (bitsOf col.length idx) := by
+  have hlt : k < 2 ^ col.length := by
+    have := (List.getElem?_eq_some_iff.mp hk).1
+    rwa [grayList_length] at this
+  rw [grayList_getElem? _ _ hlt] at hk
+  obtain ⟨rfl, -⟩ := Prod.mk.inj (Option.some.inj hk)
+  exact getCost_of_inv em parts nP col _ _ a hP (ccWalk_inv em parts nP col hne k hlt)
+
+-- non-vacuity: a column with a blank entry, two partitions, the 6th Gray code (`0b101`)
+example : (grayList 3)[6]? = some (5, 1) := by decide +kernel
+example : getCost 2 (ccWalk (fun q => (1 : Rat) / (q + 2)) (fun _ => (0, 1)) 2 [some (0, true, 1), none, some (0, false, 3)] 6) 1
+    = emitCol (fun q => (1 : Rat) / (q + 2)) (fun _ => (0, 1)) 1 [some (0, true, 1), none, some (0, false, 3)] (bitsOf 3 5) := by
+  decide +kernel
+/-- the quirk that makes the incremental route necessary: `set_partitioning(p)` does not shift `p` on BLANK entries, so
+called with the same code `5` it puts the third read on the wrong side (the code only ever calls it with `p = 0`) -/
+example : getCost 2 (setPartitioning (fun q => (1 : Rat) / (q + 2)) (fun _ => (0, 1)) 2 [some (0, true, 1), none, some (0, false, 3)] 5) 1
+    ≠ emitCol (fun q => (1 : Rat) / (q + 2)) (fun _ => (0, 1)) 1 [some (0, true, 1), none, some (0, false, 3)] (bitsOf 3 5) := by
+  decide +kernel
+
+/-- **The projection index arithmetic is restriction to the shared reads.**  Along the Gray walk of a column with `n`
+active reads the incrementally maintained `forward_projection` (xor with `1 << forward_projection_mask[bit]`, mask `-1`
+ignored) is `gather fwdPos idx`: its bit `m` is the side of the read at the `m`-th shared position;
+`get_backward_projection` / `index_backward_projection` (`idx & ((1 << w) - 1)`) is `idx % 2^w`: the sides of the first
+`w` reads.  For a column of a frame and a global bipartition `β` this is the restriction of `β` to the reads shared
+with the next column. -/
+theorem impl_projection_is_restriction (n : Nat) (fwdPos : List Nat) (hnd : fwdPos.Nodup) (w k idx : Nat) (bit : Int)
+    (hk : (grayList n)[k]? = some (idx, bit)) :
+    fpWalk n fwdPos k = gather fwdPos idx ∧
+    (∀ m (h : m < fwdPos.length), (fpWalk n fwdPos k).testBit m = idx.testBit fwdPos[m]) ∧
+    bwdProj w idx = idx % 2 ^ w ∧
+    (∀ m, (bwdProj w idx).testBit m = (decide (m < w) && idx.testBit m)) ∧
+    (∀ (F : Frame) (c β : Nat), fwdPos = (F.col c).fwdPos → idx = gather (F.active c) β →
+      fpWalk n fwdPos k = gather (F.shared c) β) := by
+  have hlt : k < 2 ^ n := by
+    have := (List.getElem?_eq_some_iff.mp hk).1
+    rwa [grayList_length] at this
+  rw [grayList_getElem? _ _ hlt] at hk
+  obtain ⟨rfl, -⟩ := Prod.mk.inj (Option.some.inj hk)
+  have h1 := fpWalk_eq n fwdPos hnd k hlt
+  have hb : bwdProj w (gray k) = gray k % 2 ^ w := by
+    unfold bwdProj; rw [Nat.one_shiftLeft, Nat.and_two_pow_sub_one_eq_mod]
+  refine ⟨h1, ?_, hb, ?_, ?_⟩
+  · intro m h; rw [h1, testBit_gather]; simp [h]
+  · intro m; rw [hb, Nat.testBit_mod_two_pow]
+  · intro F c β hF hidx; rw [h1, hF, hidx]; exact Frame.fwdProj_colIdx F c β
+
+/-- the hypothesis holds for every column of every frame: `forward_projection_mask` is injective on the shared positions -/
+theorem impl_projection_mask_injective (F : Frame) (c : Nat) : (F.col c).fwdPos.Nodup := Frame.col_fwdPos_nodup F c
+
+example : (grayList 3)[5]? = some (7, 0) ∧ fpWalk 3 [0, 2] 5 = 3 ∧ gather [0, 2] 7 = 3 ∧ bwdProj 2 7 = 3 := by decide +kernel
+
+/-- **The column loops carry exactly this walk.**  In the `while (iterator->has_next())` loops of
+`compute_forward_column` / `compute_backward_column` (whatever their bodies accumulate) the iterator and the vector of
+cost computers after `k+1` codes are the Gray walk: for every transmission value `t` the cost the body reads is the clean
+model's emission of the current code, the forward projection it reads is the packed shared bits. -/
+theorem impl_walk_in_sync [Field K] {β : Type} (X : ColCtx K) (body : Walk K → Nat → β → β) (a0 : β)
+    (hlen : X.col.length = X.co.nAct) (hnd : X.co.fwdPos.Nodup)
+    (hne : ∀ e ∈ X.col, ∀ ind alt q, e = some (ind, alt, q) → X.em q ≠ 0 ∧ 1 - X.em q ≠ 0)
+    (hP : ∀ t, t < X.nT → ∀ e ∈ X.col, ∀ ind alt q, e = some (ind, alt, q) → (X.parts t ind).1 < X.nP ∧ (X.parts t ind).2 < X.nP)
+    (k : Nat) (hk : k < 2 ^ X.co.nAct) :
+    let w := (((grayList X.co.nAct).take (k + 1)).foldl
+      (fun (s : Walk K × β) g => let w := Walk.step X s.1 g; (w, body w g.1 s.2)) (Walk.init X.nT, a0)).1
+    w.fp = gather X.co.fwdPos (gray k) ∧
+    ∀ t a, t < X.nT → Walk.cost X w t a = emitCol X.em (X.parts t) a X.col (bitsOf X.co.nAct (gray k)) := by
+  intro w
+  have hw : w = walkAfter X k := loop_fst X body _ _ _
+  rw [hw]
+  refine ⟨?_, ?_⟩
+  · rw [walkAfter_fp, fpWalk_eq _ _ hnd k hk]
+  · intro t a ht
+    rw [walkAfter_cost X hlen k t a ht, ← hlen]
+    exact getCost_of_inv _ _ _ _ _ _ a (hP t ht) (ccWalk_inv _ _ _ _ hne k (by rw [hlen]; exact hk))
+
+/-- **`compute_backward_column` as coded = the clean model's backward step.**  The loop of `compute_backward_column(c)`,
+`c > 0` – Gray order, incrementally updated cost computers and forward projection, scatter-adds
+`current_projection_column->at(backward_projection, j) += backward_prob * local_cost * transition_prob`, the running
+`scaling_sum`, the final `divide_entries_by(scaling_sum)` – produces entry for entry the gather sums `bwdStep` of the clean
+model, with the code's own `scaling_sum` as the (arbitrary, see `scaling_irrelevant`) divisor `S.bw c`.  `X.Matches F W c`:
+the loop reads the same emission / assignment / transition numbers as the clean `Weights` in column `c`. -/
+theorem impl_backward_column_eq_model [Field K] (X : ColCtx K) (F : Frame) (W : Weights K) (S : Scal K) (c : Nat) (next : Array K)
+    (hM : X.Matches F W c) (hc : c > 0) (hlen : X.col.length = X.co.nAct)
+    (hne : ∀ e ∈ X.col, ∀ ind alt q, e = some (ind, alt, q) → X.em q ≠ 0 ∧ 1 - X.em q ≠ 0)
+    (hP : ∀ t, t < X.nT → ∀ e ∈ X.col, ∀ ind alt q, e = some (ind, alt, q) → (X.parts t ind).1 < X.nP ∧ (X.parts t ind).2 < X.nP)
+    (hS : S.bw c = (bwdColumn X next X.co.bwdW).2)
+    (p j : Nat) (hp : p < 2 ^ (F.col c).bwdW) (hj : j < W.nT) :
+    tblAt (bwdColumn X next X.co.bwdW).1 (p * W.nT + j) = tblAt (bwdStep F W S c next) (p * W.nT + j) :=
+  bwdColumn_eq_bwdStep X F W S c next hM hc hlen hne hP hS p j hp hj
+
+-- non-vacuity: a context that matches a `Weights` system built from it (column 1 of a two-column frame, two reads)
+example : ∃ (X : ColCtx Rat) (F : Frame) (W : Weights Rat), X.Matches F W 1 ∧ X.col.length = X.co.nAct ∧ (1 : Nat) > 0 := by
+  let F : Frame := { nCols := 2, nReads := 2, first := fun _ => 0, last := fun _ => 1 }
+  let X : ColCtx Rat :=
+    { c := 1
+      nCols := 2
+      co := F.col 1
+      col := [some (0, true, 1), some (0, false, 2)]
+      nT := 1
+      nP := 2
+      em := fun q => 1 / (q + 2)
+      parts := fun _ _ => (0, 1)
+      asg := fun _ _ => 1 / 4
+      trans := fun _ _ => 1 }
+  let W : Weights Rat :=
+    { nT := 1
+      nA := 4
+      emit := fun _ bits t a => emitCol X.em (X.parts t) a X.col bits
+      asg := fun _ _ _ => 1 / 4
+      trans := fun _ _ _ => 1 }
+  exact ⟨X, F, W, ⟨rfl, rfl, rfl, rfl, rfl, fun _ _ => rfl, fun _ _ => rfl, fun _ _ _ _ => rfl⟩, by decide, by decide⟩
+
+end Impl
+
+
+/-! ## the glue of `run_genotype`: which prior reaches which column of the DP -/
+
+section Glue
+open WhVerif.C08.Glue
+
+/-- **Prior columns are aligned with the HMM columns.**  `run_genotype` hands `Pedigree.add_individual` the list
+`[all_genotype_likelihoods[var_to_pos[a_p]] for a_p in accessible_positions]`; the C++ core reads prior number `i` for
+column `i`.  For VCF records at pairwise different positions, one prior per record and accessible positions that are
+positions of records (any subset, any number of inaccessible variants before / between / after): no `KeyError`, one
+prior per column, and column `i` carries the prior of the record at accessible position `i`. -/
+theorem prior_columns_aligned {α : Type} (positions : List Nat) (all : List α) (acc : List Nat)
+    (hnd : positions.Nodup) (hlen : all.length = positions.length) (hsub : ∀ a ∈ acc, a ∈ positions) :
+    ∃ cols, priorColumns positions all acc = some cols ∧ cols.length = acc.length ∧
+      ∀ i j (hi : i < acc.length) (hj : j < positions.length), positions[j] = acc[i] → cols[i]? = all[j]? :=
+  priorColumns_aligned positions all acc hnd hlen hsub
+
+example : priorColumns [1000, 5000, 5020, 5040] ["p0", "p1", "p2", "p3"] [5000, 5020, 5040] = some ["p1", "p2", "p3"] := by decide
+
+/-- … and handing over the complete per-record list instead (seed C08-i) misaligns as soon as one inaccessible variant
+precedes an accessible one: if column `i` stands for record `j ≠ i` and the priors of the records differ, column `i` gets
+the wrong prior. -/
+theorem full_prior_list_misaligned {α : Type} (all : List α) (hnd : all.Nodup) (i j : Nat) (hj : j < all.length) (hij : i ≠ j) :
+    (priorColumnsFull all)[i]? ≠ all[j]? := by
+  unfold priorColumnsFull
+  intro e
+  have hi : i < all.length := by
+    by_contra h
+    rw [List.getElem?_eq_none (by omega), List.getElem?_eq_getElem hj] at e
+    exact absurd e (by simp)
+  rw [List.getElem?_eq_getElem hi, List.getElem?_eq_getElem hj] at e
+  exact hij ((List.Nodup.getElem_inj_iff hnd).mp (Option.some.inj e))
+
+-- the demo of the seed: record 0 is isolated, column 0 is record 1, the full list puts "p0" there
+example : (priorColumnsFull ["p0", "p1", "p2", "p3"])[0]? = some "p0" ∧
+    (priorColumns [1000, 5000, 5020, 5040] ["p0", "p1", "p2", "p3"] [5000, 5020, 5040]).map (·[0]?) = some (some "p1") := by decide
+
+end Glue
 
 end WhVerif.Props.C08
